@@ -333,6 +333,26 @@ theorem digits22_all (p l n cs) :
   · cases h1 : Gen.cs_940665b9.mem c1 <;> simp [Rx.all, repAll, h1]
   · cases h1 : Gen.cs_940665b9.mem c1 <;> cases h2 : Gen.cs_940665b9.mem c2 <;> simp [Rx.all, repAll, h1, h2, canMore]
 
+/-- a pattern for exactly two digits: `\d{2}` or any equivalent spelling (e.g. `\d\d`).  The theorems below depend on the
+section part of the regenerated pattern only through this property, so that a behaviour-preserving respelling of
+`TRS._SEC_RGX` does not break them. -/
+def TwoDigits (dd : Rx) : Prop :=
+  ∀ p l n cs, dd.all ⟨p, l, n, cs⟩ =
+    match l with
+    | c1 :: c2 :: t => if isDigit c1 && isDigit c2 then [⟨some c2, t, n + 2, cs⟩] else []
+    | _ => []
+
+theorem twoDigits_rep : TwoDigits (.rep (.chr Gen.cs_940665b9) 2 (some 2)) := digits22_all
+
+/-- `\d\d` -/
+theorem twoDigits_seq : TwoDigits (.seq (.chr Gen.cs_940665b9) (.chr Gen.cs_940665b9)) := by
+  intro p l n cs
+  unfold isDigit
+  rcases l with _ | ⟨c1, _ | ⟨c2, t⟩⟩
+  · simp [Rx.all]
+  · cases h1 : Gen.cs_940665b9.mem c1 <;> simp [Rx.all, h1]
+  · cases h1 : Gen.cs_940665b9.mem c1 <;> cases h2 : Gen.cs_940665b9.mem c2 <;> simp [Rx.all, h1, h2]
+
 /-- `(?P<g2>(?P<g3>\d{1,3})(?P<g4>[dirs]))` -/
 def numRx (g2 g3 g4 : Nat) (dcs : CharSet) : Rx :=
   .grp g2 (.seq (.grp g3 (.rep (.chr Gen.cs_940665b9) 1 (some 3))) (.grp g4 (.chr dcs)))
@@ -439,16 +459,18 @@ theorem trRx_all (g1 g2 g3 g4 : Nat) (dcs : CharSet) (dirs : List Char)
       | none => simp
 
 /-- `(?P<sec>\d{2}|xx|__)?` -/
-def secRx : Rx :=
-  .rep (.grp 9 (.alt (.rep (.chr Gen.cs_940665b9) 2 (some 2))
+def secRxOf (dd : Rx) : Rx :=
+  .rep (.grp 9 (.alt dd
     (.alt (.seq (.chr Gen.cs_06d53754) (.chr Gen.cs_06d53754)) (.seq (.chr Gen.cs_cb51335d) (.chr Gen.cs_cb51335d))))) 0 (some 1)
 
-theorem secRx_all (p l n cs) :
-    secRx.all ⟨p, l, n, cs⟩ =
+def secRx : Rx := secRxOf (.rep (.chr Gen.cs_940665b9) 2 (some 2))
+
+theorem secRxOf_all (dd : Rx) (hdd : TwoDigits dd) (p l n cs) :
+    (secRxOf dd).all ⟨p, l, n, cs⟩ =
       (match parseSec l with
        | some (w, t) => [⟨w.getLast?, t, n + 2, (9, n, n + 2) :: cs⟩]
        | none => []) ++ [⟨p, l, n, cs⟩] := by
-  simp only [secRx, rep01_all, all_grp, all_alt, digits22_all]
+  simp only [secRxOf, rep01_all, all_grp, all_alt, hdd p l n cs]
   congr 1
   unfold parseSec isSecText
   rcases l with _ | ⟨c1, _ | ⟨c2, t⟩⟩
@@ -471,8 +493,18 @@ theorem secRx_all (p l n cs) :
       cases h2 : isDigit c2 <;> simp [all_seq, all_chr, cs77_mem, cs79_mem, h1, h2, hx, hu]
 
 /-- the translated pattern is the three components in sequence -/
-theorem regex_eq : Gen.trs_unpacker_regex =
-    .seq (trRx 1 2 3 4 Gen.cs_acfaf790) (.seq (trRx 5 6 7 8 Gen.cs_4dcd5a8d) secRx) := rfl
+theorem secRx_all (p l n cs) :
+    secRx.all ⟨p, l, n, cs⟩ =
+      (match parseSec l with
+       | some (w, t) => [⟨w.getLast?, t, n + 2, (9, n, n + 2) :: cs⟩]
+       | none => []) ++ [⟨p, l, n, cs⟩] := secRxOf_all _ twoDigits_rep p l n cs
+
+/-- the translated pattern is the three components in sequence; the two-digit section may be spelled `\d{2}` or `\d\d` -/
+theorem regex_eq : ∃ dd, TwoDigits dd ∧ Gen.trs_unpacker_regex =
+    .seq (trRx 1 2 3 4 Gen.cs_acfaf790) (.seq (trRx 5 6 7 8 Gen.cs_4dcd5a8d) (secRxOf dd)) := by
+  first
+  | exact ⟨_, twoDigits_rep, rfl⟩
+  | exact ⟨_, twoDigits_seq, rfl⟩
 
 /-! ## `fullmatch` in closed form -/
 
@@ -487,7 +519,8 @@ theorem fullmatch_eq (l : List Char) : unpacker.rx.fullmatch l = (recognise l).m
   unfold Rx.fullmatch recognise
   rw [Rx.m_eq_findSome]
   show List.findSome? _ (Gen.trs_unpacker_regex.all _) = _
-  rw [regex_eq, all_seq, trRx_all 1 2 3 4 Gen.cs_acfaf790 nsDirs cs76_mem ns_not_digit]
+  obtain ⟨dd, hdd, hrx⟩ := regex_eq
+  rw [hrx, all_seq, trRx_all 1 2 3 4 Gen.cs_acfaf790 nsDirs cs76_mem ns_not_digit]
   cases h1 : parseTR nsDirs l with
   | none => simp
   | some r1 =>
@@ -499,7 +532,7 @@ theorem fullmatch_eq (l : List Char) : unpacker.rx.fullmatch l = (recognise l).m
     | some r2 =>
       obtain ⟨rg, ri, l2⟩ := r2
       simp only [List.flatMap_cons, List.flatMap_nil, List.append_nil]
-      rw [secRx_all]
+      rw [secRxOf_all dd hdd]
       rcases l2 with _ | ⟨c, l2'⟩
       · simp [parseSec, matchOf]
       · cases h3 : parseSec (c :: l2') with
